@@ -76,6 +76,9 @@ func famC08(g *Gen, o *Out, n int, thorough bool) {
 		var has func(c cid.Cid) (bool, error)
 		var get func(c cid.Cid) ([]byte, error)
 		var keys func() error
+		var getsize func(c cid.Cid) (int, error)
+		var putmany func(bs []Blk) error
+		var rootsOf func() ([]cid.Cid, error)
 		var finalize func() error
 		var fileBytes func() []byte
 		p := tmpPath(fmt.Sprintf("c08-%d.car", c))
@@ -104,6 +107,16 @@ func famC08(g *Gen, o *Out, n int, thorough bool) {
 				}
 				return nil
 			}
+			getsize = func(c cid.Cid) (int, error) { return rw.GetSize(ctx, c) }
+			putmany = func(bs []Blk) error {
+				var l []blocks.Block
+				for _, b := range bs {
+					blk, _ := blocks.NewBlockWithCid(b.D, b.C)
+					l = append(l, blk)
+				}
+				return rw.PutMany(ctx, l)
+			}
+			rootsOf = rw.Roots
 			finalize = rw.Finalize
 			fileBytes = func() []byte { b, _ := os.ReadFile(p); return b }
 		case "st":
@@ -115,6 +128,7 @@ func famC08(g *Gen, o *Out, n int, thorough bool) {
 			put = func(b Blk) error { return sc.Put(ctx, string(b.C.Bytes()), b.D) }
 			has = func(c cid.Cid) (bool, error) { return sc.Has(ctx, string(c.Bytes())) }
 			get = func(c cid.Cid) ([]byte, error) { return sc.Get(ctx, string(c.Bytes())) }
+			rootsOf = func() ([]cid.Cid, error) { return sc.Roots(), nil }
 			finalize = sc.Finalize
 			fileBytes = func() []byte { return mf.bytes() }
 		default:
@@ -138,7 +152,7 @@ func famC08(g *Gen, o *Out, n int, thorough bool) {
 		race0 := raceLogSize()
 		var mu sync.Mutex
 		var hist []histOp
-		var panics int32
+		var panics, badAnswers, badRootsErr, badRoots, badSize, finStarted int32
 		var wg sync.WaitGroup
 		done := make(chan struct{})
 		start := make(chan struct{})
@@ -157,7 +171,55 @@ func famC08(g *Gen, o *Out, n int, thorough bool) {
 					b := alpha[lg.pick(len(alpha))]
 					h := histOp{g: gi, c: b.C, data: b.D}
 					h.inv = tick()
-					switch r := lg.pick(10); {
+					switch r := lg.pick(13); {
+					case r == 10 && rootsOf != nil:
+						// Roots: the roots the store was opened with, every time (or the closed error)
+						h.op = "roots"
+						rs, err := rootsOf()
+						if err != nil {
+							h.err = classifyStore(err)
+							// an error is an answer only a finalized / closed store may give (Roots reads the
+							// file without a closed check: after Finalize it reports the closed file)
+							if atomic.LoadInt32(&finStarted) == 0 {
+								atomic.AddInt32(&badAnswers, 1)
+								atomic.AddInt32(&badRootsErr, 1)
+								if os.Getenv("VERIF_DEBUG") != "" {
+									fmt.Fprintln(os.Stderr, "roots error:", err)
+								}
+							}
+						} else if !sameCids(rs, roots) {
+							atomic.AddInt32(&badAnswers, 1)
+							atomic.AddInt32(&badRoots, 1)
+						}
+					case r == 11 && getsize != nil:
+						// GetSize: of a block that was put, its exact length; never a size of something else
+						h.op = "has" // judged like Has: found iff some Put of the key completed / overlapped
+						if isIdentityCid(b.C) {
+							h.op = "getsize" // identity CIDs: GetSize answers from the CID alone (recorded C04/C07 finding), not judged here
+						}
+						n, err := getsize(b.C)
+						if err == nil && n != len(b.D) && !isIdentityCid(b.C) {
+							atomic.AddInt32(&badAnswers, 1)
+							atomic.AddInt32(&badSize, 1)
+						}
+						h.found = err == nil
+						h.got = b.D
+						if err != nil {
+							h.err = classifyStore(err)
+							h.got = nil
+						}
+					case r == 12 && putmany != nil:
+						h.op = "put"
+						b2 := alpha[lg.pick(len(alpha))]
+						if err := putmany([]Blk{b, b2}); err != nil {
+							h.err = classifyStore(err)
+						} else {
+							h.ret = tick()
+							mu.Lock()
+							hist = append(hist, h, histOp{g: gi, c: b2.C, data: b2.D, op: "put", inv: h.inv, ret: h.ret})
+							mu.Unlock()
+							continue
+						}
 					case r < 5:
 						h.op = "put"
 						if err := put(b); err != nil {
@@ -205,6 +267,7 @@ func famC08(g *Gen, o *Out, n int, thorough bool) {
 				defer wg.Done()
 				<-start
 				time.Sleep(delay)
+				atomic.StoreInt32(&finStarted, 1)
 				finalize()
 			}()
 		}
@@ -223,11 +286,20 @@ func famC08(g *Gen, o *Out, n int, thorough bool) {
 			if err := finalize(); err == nil {
 				finOK = 1
 			}
-			rt = b2i(checkRealTime(wo, hist))
+			rt = b2i(checkRealTime(wo, hist) && atomic.LoadInt32(&badAnswers) == 0)
 			final = b2i(checkFinalFile(wo, hist, fileBytes(), api == "def" && !anyPut(hist)))
 		}
 		race := b2i(raceLogSize() > race0)
 		o.Count(fmt.Sprintf("concurrent-finalize=%d", b2i(concFin)))
+		if n := atomic.LoadInt32(&badRootsErr); n > 0 {
+			o.Count("bad/roots-error")
+		}
+		if n := atomic.LoadInt32(&badRoots); n > 0 {
+			o.Count("bad/roots-differ")
+		}
+		if n := atomic.LoadInt32(&badSize); n > 0 {
+			o.Count("bad/getsize")
+		}
 		o.Line(fmt.Sprintf("conc api=%s %s goroutines=%d ops=%d", api, wo, G, K),
 			fmt.Sprintf("race=%d panic=%d deadlock=%d rt=%d final=%d _finalize=%d", race, atomic.LoadInt32(&panics), deadlock, rt, final, finOK))
 		o.Count(api)
@@ -336,3 +408,17 @@ func (l *lockedMem) Write(p []byte) (int, error)             { l.mu.Lock(); defe
 func (l *lockedMem) ReadAt(p []byte, off int64) (int, error) { l.mu.RLock(); defer l.mu.RUnlock(); return l.m.ReadAt(p, off) }
 func (l *lockedMem) Truncate(n int64) error                  { l.mu.Lock(); defer l.mu.Unlock(); return l.m.Truncate(n) }
 func (l *lockedMem) bytes() []byte                           { l.mu.RLock(); defer l.mu.RUnlock(); return append([]byte{}, l.m.b...) }
+
+func sameCids(a, b []cid.Cid) bool {
+	if len(a) != len(b) {
+		return false
+	}
+	for i := range a {
+		if !a[i].Equals(b[i]) {
+			return false
+		}
+	}
+	return true
+}
+
+func isIdentityCid(c cid.Cid) bool { return c.Prefix().MhType == 0 }
